@@ -114,17 +114,24 @@ CHECKS.update({
 
 CHECKS.update({
     "C02": dict(
-        text="Lean: C02.and_sound / or_sound / isEmpty_sound / isAny_sound / rewriting_sound - for EVERY fuel (whether or not "
-             "the fixpoint loops ran to completion), every environment binding the variables and all markers over atoms of the "
-             "well-defined classes, `&`/`|` are satisfied exactly when both/either operand is; proved through the whole engine "
-             "(MultiMarker.of / MarkerUnion.of fixpoints, union_simplify / intersect_simplify, cnf/dnf, least-complexity choice "
-             "in union()) on top of the single-marker layer (string case table from C19, grouped ==/!= atoms, extra, set-valued "
-             "extras). Facts about Python-version atoms enter as named hypotheses (FromSpecOk, PyMergeOk, Coherent; C11 proves "
-             "Coherent for variable-on-the-left atoms) and are decided differentially. The model is compared structurally with "
-             "the real classes on the exhaustive single-layer pool grid and on random marker pairs; evaluate() of every result "
-             "is judged against the operands on literal-derived environments.",
-        technique="Lean 4 proof (engine induction for every fuel) over a hand-written model + structural differential correspondence",
-        design_ref="6/C02"),
+        text="Lean: C02.and_sound_lex / or_sound_lex (and and_sound / or_sound / isEmpty_sound / isAny_sound / rewriting_sound) - for "
+             "EVERY fuel (whether or not the fixpoint loops ran to completion), every environment that binds its variables "
+             "PEP 508-style (EnvTotal: final interpreter versions, python_version = major.minor of python_full_version; a concrete "
+             "instance is proved, env0_total) and all markers over atoms of the well-defined classes, `&`/`|` are satisfied exactly "
+             "when both/either operand is; proved through the whole engine (MultiMarker.of / MarkerUnion.of fixpoints, "
+             "union_simplify / intersect_simplify, cnf/dnf, least-complexity choice in union()) on top of the single-marker layer "
+             "(string case table from C19, grouped ==/!= atoms, extra, set-valued extras) and the Python-version bridge: "
+             "fromSpecOk_of_lex (from_specifier builds an atom that means the specifier: C06 round trip + C04 leaf theorem + "
+             "C11 coherence) and pyMergeOk_of_fromSpec (python_version/python_full_version merge; pyNorm_sem). The only assumptions "
+             "left are two character-level facts (LexPrintOk: the operand text from_specifier writes is read back as its clause; "
+             "LexNormOk: the string surgery of _normalize_python_version_specifier computes the structured normalisation), instances "
+             "of which are evaluated in the kernel, and the restriction to specifiers without post-release bounds, which is forced "
+             "(known finding D4a reaches markers). The model is compared structurally with the real classes on the exhaustive "
+             "single-layer pool grid, targeted python_version streams and random marker pairs; evaluate() of every result is "
+             "judged against the operands on literal-derived environments.",
+        technique="Lean 4 proof (engine induction for every fuel; bridge hypotheses discharged down to character-level lexing) "
+                  "over a hand-written model + structural differential correspondence",
+        design_ref="0.2, 6/C02"),
     "C03": dict(
         text="Lean: C03.build_sound - the tree parse_marker builds from packaging's parsed list (operand reflection, `and` folded "
              "through &, `or` groups through MarkerUnion.of, i.e. through all parse-time rewriting) is satisfied exactly when "
@@ -153,15 +160,20 @@ CHECKS.update({
         technique="Lean 4 proof over a cache-free model + differential warm/cold/twin-history correspondence",
         design_ref="6/C10"),
     "C11": dict(
-        text="Lean: C11.coherent_plain / coherent_clean - for variable-on-the-left comparison, ~= and wildcard atoms on "
-             "python_version / python_full_version / platform_release, the specifier view admits the environment's (final) "
-             "version exactly when _evaluate is true (through C04's leaf theorem for every operator and C01); coherent_reversed: "
-             "the same for literal-on-the-left atoms with ordering/equality operators (the environment's value becomes the "
-             "specifier, the literal the candidate). lexOne_of_clean discharges the character-level lexing hypothesis for values "
-             "without `,`, `|`, blanks. from_specifier (specifier -> atom) and in/not in lists are decided differentially: every atom x interpreter "
-             "version grid compares `v in marker.specifier` with evaluate(), and from_specifier output with the specifier.",
-        technique="Lean 4 proof (atom -> specifier direction) + exhaustive-grid differential testing of both directions",
-        design_ref="6/C11"),
+        text="Lean, atom -> specifier: C11.coherent_plain / coherent_clean / coherent_reversed - for comparison, ~= and wildcard atoms "
+             "on python_version / python_full_version / platform_release (either operand order) the specifier view admits the "
+             "environment's (final) version exactly when _evaluate is true (C04's leaf theorem for every operator, C01). "
+             "Specifier -> atom: M.fromSpecOk_of_lex - for every canonical specifier without post-release bounds, from_specifier "
+             "returns None or a marker of good atoms satisfied exactly when the version is admitted (C06's round trip for every "
+             "rendering incl. ~= and !=X.*, zero padding of python_full_version operands, coherence of the new atom). "
+             "python_version vs python_full_version: pyNorm_sem (`op A.B` on X.Y holds iff the normalised clause holds on X.Y.Z: "
+             "== -> A.B.*, > -> >= A.(B+1), <= -> < A.(B+1)), normGood_of_lex, pyMergeOk_of_fromSpec. Assumed: character-level "
+             "lexing only (LexOne proved for values without `,`, `|`, blanks: lexOne_of_clean; LexPrintOk, LexNormOk - instances "
+             "evaluated in the kernel). in/not in lists disagree with PEP 508's substring reading (known finding G2). Differential: "
+             "every atom x interpreter grid compares `v in marker.specifier` with evaluate(), and from_specifier output with the "
+             "specifier, structurally and by evaluation.",
+        technique="Lean 4 proof (both directions, down to character-level lexing assumptions) + exhaustive-grid differential testing",
+        design_ref="0.2, 6/C11"),
     "C12": dict(
         text="Lean: C12.only_mentions / only_implied / only_same / exclude_mentions / exclude_implied / exclude_same_partial for "
              "every fuel and marker over good atoms (the variable-tracking single-layer invariant singleSound_names carried "
